@@ -98,6 +98,10 @@ def cases(tier, seed):
     q = tier == 'quick'
     yield dict(layer='sm', seqs=[''])
     yield dict(layer='conc')      # two decodes at the same time must not share any module-level state
+    # streams far longer than anything above (several million records): decoding is per cell, so the k-th copy of a short
+    # stream decodes exactly like the first wherever it sits in a long one
+    for copies in ([450000] if q else [450000, 780001]):
+        yield dict(layer='long', copies=copies, dt='f4')
     # state machine first (simplest first): histories grouped by (length, first symbols) so a task is >= 50 ms
     D = depth(tier)
     for L in range(1, D + 1):
@@ -590,8 +594,30 @@ def run_conc(c):
     return dict(problems=probs, evals=n, nt=['conc'], states=0, transitions=0, traces=0, extra=dict(concurrent_call_pairs=n))
 
 
+def run_long(c):
+    short = sm_stream('axyxxyybxyyxcy')          # 3 cells of 6, 4 and 1 particles: 14 records, no power of two
+    box, velz = 2000.0, 123.5
+    one = call(short, box, velz, c['dt'])
+    probs = [dict(sig='long:' + a, msg='short stream: ' + b) for a, b in one['problems']]
+    if one['pos'] is None or one['vel'] is None:
+        return dict(problems=probs, evals=1, nt=[], states=0, transitions=0, traces=0)
+    T = c['copies']
+    data = np.ascontiguousarray(np.tile(short, (T, 1)))
+    got = call(data, box, velz, c['dt'])
+    probs += [dict(sig='long:' + a, msg=f'{len(data)} records: ' + b) for a, b in got['problems']]
+    if got['pos'] is not None and got['vel'] is not None:
+        for name in ('pos', 'vel'):
+            g, e = got[name], np.tile(one[name], (T, 1))
+            if g.shape != e.shape:
+                probs.append(dict(sig=f'long:{name}:count', msg=f'{len(data)} records ({T} copies of a {len(short)}-record stream): {len(g)} particles decoded, expected {len(e)}'))
+            elif not np.array_equal(g, e, equal_nan=True):
+                row = int(np.argmax(~((g == e) | (np.isnan(g) & np.isnan(e))).all(axis=1)))
+                probs.append(dict(sig=f'long:{name}', msg=f'{len(data)} records ({T} copies of a {len(short)}-record stream): particle {row} (copy {row // len(one[name])}) decodes to {g[row].tolist()}, in the short stream to {e[row].tolist()}'))
+    return dict(problems=probs, evals=2, nt=[('long', T)], states=0, transitions=0, traces=0, extra=dict(long_stream_records=len(data)))
+
+
 def run(case):
-    return dict(conc=run_conc, sm=run_sm, rt=run_rt, nibp=run_nibp, nibh=run_nibh)[case['layer']](case)
+    return dict(long=run_long, conc=run_conc, sm=run_sm, rt=run_rt, nibp=run_nibp, nibh=run_nibh)[case['layer']](case)
 
 
 def finalize(agg, tier):
